@@ -123,17 +123,6 @@ Module Ledger.
 End Ledger.
 
 (* ------------------------------------------------------------------ MODEL: required key hashes *)
-(* Three behaviours of the code that the checks found to differ from the specification are switches of the
-   model, so that the same model follows the tree before and after a repair (the correspondence run
-   determines the switches by probing the code; theorems are stated for every setting):
-     scan_nofk      _native_scripts_vkey_hashes._dfs descends into ScriptNofK          (tree as read: false)
-     scan_attached  ... also scans scripts attached by add_script_input / add_minting_script /
-                    add_withdrawal_script / add_certificate_script                      (tree as read: false)
-     dedup_by_hash  build_and_sign signs once per verification-key hash                (tree as read: false) *)
-Record cfg := mkCfg { scan_nofk : bool; scan_attached : bool; dedup_by_hash : bool }.
-Definition cfg_as_read : cfg := mkCfg false false false.
-Definition cfg_repaired : cfg := mkCfg true true true.
-
 (* the builder's fields that matter here *)
 Record bdesc := mkB {
   b_inputs : list cred;               (* payment_part of i.output.address for i in self.inputs *)
@@ -141,7 +130,8 @@ Record bdesc := mkB {
   b_required_signers : list bytes;    (* self.required_signers (None = []) *)
   b_native_scripts : list nscript;    (* the FIELD self.native_scripts *)
   b_attached : list nscript;          (* native scripts held in _inputs_to_scripts / _minting_script_to_redeemers /
-                                         _withdrawal_script_to_redeemers / _certificate_script_to_redeemers *)
+                                         _withdrawal_script_to_redeemers / _certificate_script_to_redeemers;
+                                         all_scripts = field ++ these (one per script hash) *)
   b_certs : list cert;
   b_withdrawals : list cred;          (* Address.from_primitive(k) of every key of self.withdrawals *)
   b_voters : list voter;
@@ -153,78 +143,61 @@ Definition tx_of (b : bdesc) : txdesc :=
   mkTx (b_inputs b) (b_collateral b) (b_required_signers b) (b_native_scripts b ++ b_attached b)
        (b_certs b) (b_withdrawals b) (b_voters b).
 
-Section Required.
-  Variable c : cfg.
+Definition required_signer_vkey_hashes (b : bdesc) : list bytes := b_required_signers b.
 
-  Definition required_signer_vkey_hashes (b : bdesc) : list bytes := b_required_signers b.
+Definition input_vkey_hashes (b : bdesc) : list bytes :=
+  flat_map cred_keys (b_inputs b ++ b_collateral b).
 
-  Definition input_vkey_hashes (b : bdesc) : list bytes :=
-    flat_map cred_keys (b_inputs b ++ b_collateral b).
+(* the isinstance chain of _certificate_vkey_hashes, in source order *)
+Definition certificate_keys (x : cert) : list bytes :=
+  match x with
+  | StakeRegistration c | StakeDeregistration c | StakeDelegation c
+  | StakeRegistrationConway c | StakeDeregistrationConway c | VoteDelegation c
+  | StakeAndVoteDelegation c | StakeRegistrationAndDelegation c
+  | StakeRegistrationAndVoteDelegation c
+  | StakeRegistrationAndDelegationAndVoteDelegation c => cred_keys c
+  | RegDRepCert c | UnregDRepCertificate c | UpdateDRepCertificate c => cred_keys c
+  | AuthCommitteeHotCertificate cold _ | ResignCommitteeColdCertificate cold => cred_keys cold
+  | PoolRegistration operator owners => operator :: owners
+  | PoolRetirement pool => [pool]
+  end.
+Definition certificate_vkey_hashes (b : bdesc) : list bytes := flat_map certificate_keys (b_certs b).
 
-  (* the isinstance chain of _certificate_vkey_hashes, in source order *)
-  Definition certificate_keys (x : cert) : list bytes :=
-    match x with
-    | StakeRegistration c | StakeDeregistration c | StakeDelegation c
-    | StakeRegistrationConway c | StakeDeregistrationConway c | VoteDelegation c
-    | StakeAndVoteDelegation c | StakeRegistrationAndDelegation c
-    | StakeRegistrationAndVoteDelegation c
-    | StakeRegistrationAndDelegationAndVoteDelegation c => cred_keys c
-    | RegDRepCert c | UnregDRepCertificate c | UpdateDRepCertificate c => cred_keys c
-    | AuthCommitteeHotCertificate cold _ | ResignCommitteeColdCertificate cold => cred_keys cold
-    | PoolRegistration operator owners => operator :: owners
-    | PoolRetirement pool => [pool]
-    end.
-  Definition certificate_vkey_hashes (b : bdesc) : list bytes := flat_map certificate_keys (b_certs b).
+Definition vote_keys (v : voter) : list bytes :=
+  match v with
+  | VoterCommitteeHot c | VoterDRep c => cred_keys c
+  | VoterPool h => [h]
+  end.
+Definition vote_vkey_hashes (b : bdesc) : list bytes := flat_map vote_keys (b_voters b).
 
-  Definition vote_keys (v : voter) : list bytes :=
-    match v with
-    | VoterCommitteeHot c | VoterDRep c => cred_keys c
-    | VoterPool h => [h]
-    end.
-  Definition vote_vkey_hashes (b : bdesc) : list bytes := flat_map vote_keys (b_voters b).
+(* address_type == NONE_KEY: a reward account with a key credential *)
+Definition withdrawal_vkey_hashes (b : bdesc) : list bytes := flat_map cred_keys (b_withdrawals b).
 
-  (* address_type == NONE_KEY: a reward account with a key credential *)
-  Definition withdrawal_vkey_hashes (b : bdesc) : list bytes := flat_map cred_keys (b_withdrawals b).
+(* _dfs: ScriptPubkey -> its key hash; ScriptAll / ScriptAny / ScriptNofK -> union over the members *)
+Fixpoint ns_dfs (s : nscript) : list bytes :=
+  match s with
+  | NsPubkey h => [h]
+  | NsAll l | NsAny l | NsNofK _ l => flat_map ns_dfs l
+  | NsInvalidBefore _ | NsInvalidHereafter _ => []
+  end.
+(* for script in self.all_scripts: if isinstance(script, NativeScript) *)
+Definition native_scripts_vkey_hashes (b : bdesc) : list bytes :=
+  flat_map ns_dfs (b_native_scripts b ++ b_attached b).
 
-  (* _dfs *)
-  Fixpoint ns_dfs (s : nscript) : list bytes :=
-    match s with
-    | NsPubkey h => [h]
-    | NsAll l | NsAny l => flat_map ns_dfs l
-    | NsNofK _ l => if scan_nofk c then flat_map ns_dfs l else []
-    | NsInvalidBefore _ | NsInvalidHereafter _ => []
-    end.
-  Definition scanned_scripts (b : bdesc) : list nscript :=
-    b_native_scripts b ++ (if scan_attached c then b_attached b else []).
-  Definition native_scripts_vkey_hashes (b : bdesc) : list bytes := flat_map ns_dfs (scanned_scripts b).
+Definition builder_required (b : bdesc) : list bytes :=
+  input_vkey_hashes b ++ required_signer_vkey_hashes b ++ native_scripts_vkey_hashes b
+  ++ certificate_vkey_hashes b ++ withdrawal_vkey_hashes b ++ vote_vkey_hashes b.
 
-  Definition builder_required (b : bdesc) : list bytes :=
-    input_vkey_hashes b ++ required_signer_vkey_hashes b ++ native_scripts_vkey_hashes b
-    ++ certificate_vkey_hashes b ++ withdrawal_vkey_hashes b ++ vote_vkey_hashes b.
+(* self.witness_override or len(self._build_required_vkeys()) *)
+Definition witness_count (b : bdesc) : N :=
+  match b_witness_override b with
+  | Some n => if n =? 0 then lenN (dedup (builder_required b)) else n
+  | None => lenN (dedup (builder_required b))
+  end.
 
-  (* self.witness_override or len(self._build_required_vkeys()) *)
-  Definition witness_count (b : bdesc) : N :=
-    match b_witness_override b with
-    | Some n => if n =? 0 then lenN (dedup (builder_required b)) else n
-    | None => lenN (dedup (builder_required b))
-    end.
-
-  (* --- where the model knowingly departs from the specification --- *)
-  (* key leaves the scan does not reach: those below an n-of-k node (when not scanned) ... *)
-  Fixpoint ns_hidden (s : nscript) : list bytes :=
-    match s with
-    | NsAll l | NsAny l => flat_map ns_hidden l
-    | NsNofK _ l => if scan_nofk c then flat_map ns_hidden l else flat_map Ledger.ns_leaves l
-    | _ => []
-    end.
-  (* ... and all leaves of attached scripts (when not scanned) *)
-  Definition hidden_leaves (b : bdesc) : list bytes :=
-    flat_map ns_hidden (scanned_scripts b)
-    ++ (if scan_attached c then [] else flat_map Ledger.ns_leaves (b_attached b)).
-  (* over-inclusion: the builder asks for a witness for legacy stake registrations *)
-  Definition legacy_registration_keys (b : bdesc) : list bytes :=
-    flat_map (fun x => match x with StakeRegistration c => cred_keys c | _ => [] end) (b_certs b).
-End Required.
+(* the one place where the builder asks for MORE than the ledger: a witness for legacy stake registrations *)
+Definition legacy_registration_keys (b : bdesc) : list bytes :=
+  flat_map (fun x => match x with StakeRegistration c => cred_keys c | _ => [] end) (b_certs b).
 
 (* ------------------------------------------------------------------ MODEL: placeholder witnesses *)
 Definition FAKE_VKEY : bytes := hx "5797dc2cc919dfec0bb849551ebdf30d96e5cbe0f33f734a87fe826db30f7ef9".
@@ -287,7 +260,6 @@ Section Sign.
   Variable ord_pub : bytes -> bytes.                   (* NaCl: seed -> 32-byte verification key *)
   Variable ord_sign : bytes -> bytes -> bytes.         (* NaCl: seed, message -> 64-byte signature *)
   Variable ext_sign : bytes -> bytes -> bytes -> bytes. (* BIP32ED25519PrivateKey(kL||kR, _).sign(message) *)
-  Variable c : cfg.
 
   (* VerificationKeyWitness.__post_init__: an ExtendedVerificationKey (payload[64:], 64 bytes) is cut to its
      first 32 bytes; the hash of an extended verification key is the hash of the same 32 bytes *)
@@ -302,13 +274,13 @@ Section Sign.
   Definition wit_of (k : skey) (m : bytes) : wit :=
     mkWit (vk32 k) (sign_with k m) (match k with SkOrd _ mt => mt | SkExt _ _ => meta_plain end).
 
-  (* the loop over set(signing_keys) *)
+  (* the loop over set(signing_keys); signed = signed_vkey_hashes *)
   Fixpoint sign_loop (required : list bytes) (force : bool) (m : bytes) (signed : list bytes) (ks : list skey) : list wit :=
     match ks with
     | [] => []
     | k :: r =>
         let kh := key_hash k in
-        if (force || memb kh required) && negb (dedup_by_hash c && memb kh signed)
+        if negb (memb kh signed) && (force || memb kh required)
         then wit_of k m :: sign_loop required force m (kh :: signed) r
         else sign_loop required force m signed r
     end.
@@ -329,7 +301,7 @@ Section Sign.
     else b.
 
   Definition build_and_sign_witnesses (b : bdesc) (auto force : bool) (keys : list skey) (body_bytes : bytes) : list wit :=
-    sign_witnesses (builder_required c (after_auto auto keys b)) force keys (H32 body_bytes).
+    sign_witnesses (builder_required (after_auto auto keys b)) force keys (H32 body_bytes).
 End Sign.
 
 (* ------------------------------------------------------------------ MODEL: BIP32ED25519PrivateKey.sign *)
